@@ -28,7 +28,7 @@ QUICK_NASTY = {
     "ends-dquote", "ends-two-dquotes", "ends-triple-dquote", "ends-literal-backslash-dquote", "star-slash-middle",
     "star-slash-literal-end", "backslash-end", "backslash-end-of-middle-line-literal", "windows-path-users",
     "backslash-u-star-slash-literal", "xml-specials", "xml-cdata-end", "ctrl-0001", "ctrl-2028", "lone-cr",
-    "multi-paragraph-quotes", "constraint-field", "rejected-lone-star",
+    "multi-paragraph-quotes", "constraint-field", "rejected-lone-star", "backtick-in-literal", "ends-vt",
 }
 
 WRAPPERS = ["docstring", "pycomment", "go", "cpp", "java", "ts", "cs", "csesc"]
@@ -613,9 +613,13 @@ def _whole_files(ctx: Ctx) -> None:
     if ctx.tier == "quick" and not ctx.searching:
         # the descriptions that reach a defect fixed so far (one or two per root cause) + a few of the other classes
         descs = [d for d in descs if d[0] in QUICK_NASTY]
+    # complete small meta-models whose structure (not a description) selects the branches of the code emitters
+    descs = [(name, {"model": text}) for name, text in c20_files.SHAPE_MODELS] + descs
     for c in corpus(ID):
         if "desc" in c:
             descs.insert(0, ("corpus", c["desc"]))
+        elif "model" in c:
+            descs.insert(0, ("corpus-" + c.get("name", "model"), {"model": c["model"]}))
     if ctx.tier == "thorough" or ctx.searching:
         for i in range(ctx.n(0, 40)):
             k = ctx.rng.randint(1, 4)
@@ -633,11 +637,12 @@ def oracle(ctx: Ctx) -> None:
 
 def replay(ctx: Ctx, data: Dict[str, Any]) -> Any:
     inp = data["failure"]["input"] if "failure" in data else data
-    if "desc" in inp:
+    if "desc" in inp or "model" in inp:
         from harness.props import c20_files
 
         before = len(ctx.failures)
-        c20_files.run(ctx, [("replay", inp["desc"])], use_compilers=True)
+        item = inp["desc"] if "desc" in inp else {"model": inp["model"]}
+        c20_files.run(ctx, [(inp.get("name", "replay"), item)], use_compilers=True)
         return {"whole-file failures": ctx.failures[before:]}
     t = inp["text"].encode("utf-8").decode("unicode_escape") if False else inp["text"]
     fns = _impls()
